@@ -39,7 +39,8 @@ def showOut (o : _root_.Flow.Out) : String :=
 
 def showObs (l : Line) : String :=
   match str l "op", str l "obs" with
-  | "authorize", "login" => "login:" ++ str l "o.id"
+  | "authorize", "login" => "login:" ++ str l "o.id" ++ (if str l "o.presub" == "" then "" else ":" ++ str l "o.presub")
+  | "authorize", "err" => "err:" ++ str l "o.error"
   | "callback", "code" => "code:" ++ str l "o.code"
   | "callback", "err" => "err:" ++ (if has l "o.error" then str l "o.error" else "invalid_request")
   | "exchange", "ok" => s!"ok:{str l "o.sub"}:{str l "o.client"}:{list l "o.scopes"}:{str l "o.nonce"}:{if has l "o.rt" then str l "o.rt" else "-"}".replace " " ""
@@ -54,13 +55,18 @@ def modelStep (m : ModSt) (l : Line) (now : Int) : ModSt × String :=
     let p : Provider := { store := { clients := parseClients l, is_ClientCredentialsStorage := true }, issuer := str l "issuer",
                           postSupported := bool l "post", pkjwtSupported := bool l "pkjwt", refreshSupported := bool l "refresh",
                           jwtMaxAgeIAT := 3600 * Go.second, jwtOffset := Go.second }
-    ({ st := { p := p }, router := rt }, "reset")
+    ({ st := { p := p, hintKeys := if has l "ks.n" then parseKeySet l "ks." else {} }, router := rt }, "reset")
   | "authorize" =>
     let ch : Option CodeChallenge := if has l "chal.m" then some { Challenge := str l "chal.c", Method := str l "chal.m" } else none
     let a : AuthReq := { clientID := str l "client", redirectURI := str l "redirect", scopes := list l "scopes",
                          nonce := str l "nonce", state := str l "state", challenge := ch }
-    let (s, o) := _root_.Flow.step now m.st (.authorize a)
-    ({ m with st := s }, showOut o)
+    let hint : FlowHint := if has l "hint" then { raw := "hint", token := parseToken l } else {}
+    let (s, o) := _root_.Flow.step now m.st (.authorize a hint)
+    -- the subject the pending request carries (from a valid or expired id_token_hint) is part of what is compared
+    let pre := match o with
+      | .loginPage _ => (s.store.authReqs.getLast?.map (·.subject)).getD ""
+      | _ => ""
+    ({ m with st := s }, showOut o ++ (if pre == "" then "" else ":" ++ pre))
   | "login" =>
     let (s, _) := _root_.Flow.step now m.st (.login (str l "id") (str l "sub") (int l "authtime"))
     ({ m with st := s }, "done")
